@@ -196,6 +196,9 @@ pub fn vx_note_error() {}
 
 //@@include c01_reader/iface.rs
 
+// interface "no soft-keyword token kinds" (C02), same text as in the grammar units and c01_compose
+//@@include c02_grammar/nosoft_iface.rs
+
 pub proof fn lemma_tiled_push(toks: Seq<LuaTokenData>, b: Seq<u8>, base: int, hi: int, t: LuaTokenData)
     requires tiled(toks, b, base, hi), t.range.start_offset == hi, tok_ok(t, b, base),
     ensures tiled(toks.push(t), b, base, tok_end(t)),
